@@ -37,17 +37,23 @@
 
 // allocation cap standing in for a memory-limited host (applies to allocations made by library threads too)
 static size_t ALLOC_CAP = 268435456;
+#include <malloc.h>
+static std::atomic<long long> g_live_bytes(0), g_peak_bytes(0), g_live_allocs(0);
 void * operator new(size_t n) {
     if (n > ALLOC_CAP) throw std::bad_alloc();
     void * p = std::malloc(n ? n : 1);
     if (!p) throw std::bad_alloc();
+    long long now = g_live_bytes.fetch_add(static_cast<long long>(malloc_usable_size(p))) + static_cast<long long>(malloc_usable_size(p));
+    long long pk = g_peak_bytes.load();
+    while (now > pk && !g_peak_bytes.compare_exchange_weak(pk, now)) {}
+    g_live_allocs++;
     return p;
 }
-void operator delete(void * p) noexcept { std::free(p); }
-void operator delete(void * p, size_t) noexcept { std::free(p); }
+void operator delete(void * p) noexcept { if (p) { g_live_bytes -= static_cast<long long>(malloc_usable_size(p)); g_live_allocs--; } std::free(p); }
+void operator delete(void * p, size_t) noexcept { operator delete(p); }
 void * operator new[](size_t n) { return operator new(n); }
-void operator delete[](void * p) noexcept { std::free(p); }
-void operator delete[](void * p, size_t) noexcept { std::free(p); }
+void operator delete[](void * p) noexcept { operator delete(p); }
+void operator delete[](void * p, size_t) noexcept { operator delete(p); }
 
 using namespace Vector::BLF;
 
@@ -226,6 +232,168 @@ static std::string do_read(const std::string & line) {
     return out + objs;
 }
 
+// FS <delay_ms> <level> <cs> <restore> | objs : write session with a pause before close()
+static std::string do_write_delay(const std::string & line) {
+    std::vector<std::string> parts = split_bar(line);
+    std::istringstream hs(parts[0]);
+    std::string cmd;
+    int delay = 0, level = 1, restore = 0;
+    long cs = 0x20000;
+    hs >> cmd >> delay >> level >> cs >> restore;
+    std::string path = g_tmp + ".s.blf";
+    {
+        File f;
+        f.compressionLevel = level;
+        f.setDefaultLogContainerSize(static_cast<uint32_t>(cs));
+        f.writeRestorePoints = restore != 0;
+        f.open(path.c_str(), std::ios_base::out);
+        if (!f.is_open()) return "FS err open";
+        write_objects(f, parts, 1);
+        if (delay > 0) std::this_thread::sleep_for(std::chrono::milliseconds(delay));
+        f.close();
+    }
+    std::string out = "FS ok " + slurp_hex(path);
+    std::remove(path.c_str());
+    return out;
+}
+
+// FE <reads> <sleep_ms> <mode> <hex> : read `reads` objects (all if < 0), pause, then close (0) / destroy (1) /
+// close twice then destroy (2).  Prints objects read, flags, and the change in live allocations over the session.
+static std::string do_read_early(const std::string & line) {
+    std::istringstream ss(line);
+    std::string cmd, hex;
+    long reads = -1;
+    int sleep_ms = 0, mode = 0;
+    ss >> cmd >> reads >> sleep_ms >> mode >> hex;
+    std::vector<unsigned char> b = hex == "-" ? std::vector<unsigned char>() : rt_unhex("x" + hex);
+    std::string path = g_tmp + ".e.blf";
+    {
+        std::ofstream o(path, std::ios::binary | std::ios::trunc);
+        o.write(reinterpret_cast<const char *>(b.data()), static_cast<std::streamsize>(b.size()));
+    }
+    std::string out, flags;
+    out.reserve(4096); flags.reserve(256);
+    long long before = g_live_allocs;
+    {
+        long n = 0;
+        File * f = new File;
+        try {
+            f->open(path.c_str(), std::ios_base::in);
+        } catch (Vector::BLF::Exception &) {
+            delete f;
+            std::remove(path.c_str());
+            return "FE throws";
+        }
+        auto fl = [&] { flags += ' '; flags += (f->is_open() ? '1' : '0'); flags += (f->good() ? '1' : '0'); flags += (f->eof() ? '1' : '0'); };
+        fl();
+        bool sawnull = false;
+        while (reads < 0 || n < reads) {
+            ObjectHeaderBase * o = f->read();
+            g_progress++;
+            if (!o) { sawnull = true; break; }
+            n++;
+            delete o;
+        }
+        fl();
+        if (sleep_ms > 0) std::this_thread::sleep_for(std::chrono::milliseconds(sleep_ms));
+        if (mode == 0 || mode == 2) { f->close(); fl(); g_progress++; }
+        if (mode == 2) { f->close(); fl(); g_progress++; }
+        delete f;
+        g_progress++;
+        out += "FE ok n="; out += std::to_string(n); out += " null="; out += (sawnull ? "1" : "0"); out += " flags="; out += flags;
+    }
+    std::remove(path.c_str());
+    out += " leaked=" + std::to_string(static_cast<long long>(g_live_allocs) - before);
+    return out;
+}
+
+// FM <nobj> <objbytes> <cs> <sleep_us_per_read> : write nobj AppText-like objects, read them back slowly; peak live bytes while reading
+static std::string do_memory(const std::string & line) {
+    std::istringstream ss(line);
+    std::string cmd;
+    long nobj = 100, objbytes = 100, cs = 4096, sleep_us = 0;
+    ss >> cmd >> nobj >> objbytes >> cs >> sleep_us;
+    std::string path = g_tmp + ".m.blf";
+    {
+        File f;
+        f.compressionLevel = 0;
+        f.setDefaultLogContainerSize(static_cast<uint32_t>(cs));
+        f.open(path.c_str(), std::ios_base::out);
+        for (long i = 0; i < nobj; i++) {
+            auto * a = new AppText;
+            a->text.assign(static_cast<size_t>(objbytes), 'a' + static_cast<char>(i % 26));
+            f.write(a);
+            g_progress++;
+        }
+        f.close();
+    }
+    long long base = g_live_bytes;
+    g_peak_bytes = base;
+    long n = 0;
+    {
+        File f;
+        f.open(path.c_str(), std::ios_base::in);
+        while (true) {
+            ObjectHeaderBase * o = f.read();
+            g_progress++;
+            if (!o) break;
+            n++;
+            delete o;
+            if (sleep_us > 0 && n % 8 == 0) std::this_thread::sleep_for(std::chrono::microseconds(sleep_us));
+        }
+        f.close();
+    }
+    std::remove(path.c_str());
+    return "FM ok n=" + std::to_string(n) + " peak=" + std::to_string(static_cast<long long>(g_peak_bytes) - base);
+}
+
+// FH <ops> : an API history on one File object; prints is_open/good/eof after every call and the leak count at the end.
+//   om open(missing file, in)  ou open(unwritable path, out)  oi open(valid file, in)  ob open(bad signature, in)
+//   oo open(out)  r read  w write(new CanMessage)  c close  (the File is destroyed at the end)
+static std::string do_history(const std::string & line) {
+    std::istringstream ss(line);
+    std::string cmd, op;
+    ss >> cmd;
+    std::string valid = g_tmp + ".hv.blf", bad = g_tmp + ".hb.blf", outp = g_tmp + ".ho.blf";
+    {
+        File f;
+        f.open(valid.c_str(), std::ios_base::out);
+        for (int i = 0; i < 3; i++) f.write(new CanMessage);
+        f.close();
+        std::ofstream o(bad, std::ios::binary | std::ios::trunc);
+        o << "this is not a blf file, but it is long enough to be read as a header ......................................................................................................................";
+    }
+    std::string out = "FH";
+    out.reserve(8192);
+    std::vector<std::string> ops;
+    while (ss >> op) ops.push_back(op);
+    long long before = g_live_allocs;
+    {
+        File * f = new File;
+        auto fl = [&](const std::string & tag, const char * x) { out += ' '; out += tag; out += x; out += ':'; out += (f->is_open() ? '1' : '0'); out += (f->good() ? '1' : '0'); out += (f->eof() ? '1' : '0'); };
+        for (const std::string & op : ops) {
+            g_progress++;
+            try {
+                if (op == "om") f->open((g_tmp + ".does-not-exist").c_str(), std::ios_base::in);
+                else if (op == "ou") f->open("/proc/verif/no/such/dir/x.blf", std::ios_base::out);
+                else if (op == "oi") f->open(valid.c_str(), std::ios_base::in);
+                else if (op == "ob") f->open(bad.c_str(), std::ios_base::in);
+                else if (op == "oo") f->open(outp.c_str(), std::ios_base::out);
+                else if (op == "r") { if (f->is_open()) { ObjectHeaderBase * o = f->read(); out += o ? " +obj" : " +null"; delete o; } else out += " +skip"; }
+                else if (op == "w") { if (f->is_open()) f->write(new CanMessage); else out += " +skip"; }
+                else if (op == "c") f->close();
+                fl(op, "");
+            } catch (Vector::BLF::Exception &) {
+                fl(op, "!");
+            }
+        }
+        delete f;
+    }
+    out += " leaked=" + std::to_string(static_cast<long long>(g_live_allocs) - before);
+    std::remove(valid.c_str()); std::remove(bad.c_str()); std::remove(outp.c_str());
+    return out;
+}
+
 int main(int argc, char ** argv) {
     if (const char * c = std::getenv("VERIF_ALLOC_CAP")) ALLOC_CAP = std::strtoull(c, nullptr, 10);
     if (const char * c = std::getenv("VERIF_WD_SECONDS")) WD_SECONDS = atoi(c);
@@ -256,6 +424,10 @@ int main(int argc, char ** argv) {
             if (line.compare(0, 3, "FW ") == 0) r = do_write(line);
             else if (line.compare(0, 3, "FX ") == 0) r = do_write_overlapping(line);
             else if (line.compare(0, 3, "FR ") == 0) r = do_read(line);
+            else if (line.compare(0, 3, "FS ") == 0) r = do_write_delay(line);
+            else if (line.compare(0, 3, "FE ") == 0) r = do_read_early(line);
+            else if (line.compare(0, 3, "FM ") == 0) r = do_memory(line);
+            else if (line.compare(0, 3, "FH ") == 0) r = do_history(line);
             else r = "? bad case";
         } catch (std::exception & ex) {
             r = std::string("ESCAPED ") + ex.what();
